@@ -43,7 +43,7 @@ const labelChars = "abcdefghijklmnopqrstuvwxyzABCDEFGHIJKLMNOPQRSTUVWXYZ01234567
 
 func (c *runCtx) label() string {
 	r := c.rng
-	known := []string{"UTF-8", "utf-8", "ISO-8859-2", "iso-8859-1", "windows-1251", "Shift_JIS", "KOI8-R", "EUC-KR", "GBK", "Big5", "UTF-16", "utf-16le", "UTF-16BE", "utf-16", "x-user-defined", "US-ASCII", "IBM866"}
+	known := []string{"HZ-GB-2312", "X-MAC-CZECH", "ABCDEFGHIJKLMNOPQRSTUVWXYZ", "AZaz09", "Z", "UTF-8", "utf-8", "ISO-8859-2", "iso-8859-1", "windows-1251", "Shift_JIS", "KOI8-R", "EUC-KR", "GBK", "Big5", "UTF-16", "utf-16le", "UTF-16BE", "utf-16", "x-user-defined", "US-ASCII", "IBM866"}
 	if r.Intn(3) == 0 {
 		return known[r.Intn(len(known))]
 	}
@@ -160,7 +160,7 @@ func runC12(c *runCtx) {
 		}
 		limit := uint32(3072)
 		if r.Intn(4) == 0 || len(doc) > 3000 {
-			limit = 0
+			limit = []uint32{0, 0, 65536, uint32(len(doc) + 1)}[r.Intn(4)]
 		}
 		typ, cs := detectCharset(doc, limit)
 		c.stats.note(kind, doc, len(doc), true)
@@ -189,7 +189,7 @@ func runC12(c *runCtx) {
 		if !c.mine(doc) {
 			continue
 		}
-		typ, cs := detectCharset(doc, 3072)
+		typ, cs := detectCharset(doc, []uint32{3072, 0, 65536, uint32(len(doc)), 3072}[i%5])
 		c.stats.note("xml-decl", doc, len(doc), true)
 		c.stats.Results[typ]++
 		c.emit("c12x", hx(doc), hx([]byte(charset.VerifFromXML(doc))), typ, hx([]byte(cs)), hx([]byte(L)), "xml-decl")
